@@ -3645,7 +3645,7 @@ THEOREMS.update({
                                "Dirk.C07_refused_no_effect_atts", "Dirk.C07_resolved_account", "Dirk.C07_legacy_counterexample",
                                "Dirk.C07_fixed_alternation", "Dirk.C07_whole_name", "Dirk.C07_entry_matches_spec",
                                "Dirk.Re.search_anchored", "Dirk.Re.matchFrom_iff"]),
-    "C05": ("Dirk.Props.C05", ["Dirk.C05_generic_single", "Dirk.C05_generic_multi", "Dirk.C05_attest_only_attester",
+    "C05": ("Dirk.Props.C05", ["Dirk.C05_dispatch_is_source", "Dirk.C05_generic_single", "Dirk.C05_generic_multi", "Dirk.C05_attest_only_attester",
                                "Dirk.C05_propose_only_proposer", "Dirk.C05_logs", "Dirk.C05_kernel_is_source"]),
     "C06": ("Dirk.Props.C06Short", ["Dirk.C06_att", "Dirk.C06_prop", "Dirk.C06_sign", "Dirk.C06_atts", "Dirk.C06_msign",
                                "Dirk.C06_att_fault", "Dirk.C06_prop_fault", "Dirk.C06_batch_store_fault",
